@@ -269,7 +269,7 @@ func (u *Unit) oblige(f *Frame, st *State, kind, text, goal string, pos token.Po
 	if goal == "true" {
 		return
 	}
-	if u.con != nil && u.con.Wiring {
+	if u.con != nil && u.con.Wiring && !u.con.Keep[kind] {
 		switch kind {
 		case "index", "nil", "slice", "divzero", "makeslice", "typeassert", "nilmap", "arith", "wrap", "pre", "panic":
 			// wiring-only unit: memory safety of this function is not claimed
